@@ -244,6 +244,26 @@ def run_task(task, acc):
             acc.nontriv(model.chash(tuple(cells)))
         acc.outcome(v.to_str())
         acc.sample({'kind': 'hist', 'hist': h})
+        # query, edit in place, render again (wave 17): the pools rebuild every value from its history, so an object was
+        # never rendered / asked is_optimizable() and then changed.  Continue with a full round of queries and one
+        # in-place concatenation / assignment; the piece with the two-group verbatim setting makes the value
+        # non-optimizable, the others keep it optimizable.
+        for ed in (['icat', ['ctor', 'z', '[1;31']], ['icat', ['ctor', 'z', '4']], ['icat', ['lit', 'z']], ['assign', 'qq']):
+            h3 = h + [['read'], ed]
+            case3 = {'kind': 'hist', 'hist': h3}
+            acc.current = case3
+            acc.transitions += 19
+            acc.counters['query_edit_render'] += 1
+            try:
+                bad = check_value(build(h3, reads=False))
+            except env.HarnessError:
+                raise
+            except Exception as e:  # noqa
+                bad = [('render-raises', '%s after read on %s: %s: %s' % (ed, h, type(e).__name__, e))]
+            if not bad:
+                acc.validated += 19
+            for clause, detail in bad:
+                acc.violation(clause, case3, detail, sig=clause)
 
 
 def replay(case):
